@@ -65,7 +65,7 @@ def gen_recs(r, fmt):
                     v = r.choice(["a\u00a0b", "x\u3000y", "t\tt", "em\u2003sp", "\u00a0lead", "trail\u3000", "v\u000bt", "f\u000cf", "nel\u0085x", "ls\u2028x"])
             rec.append((k, v))
         recs.append(rec)
-    if fmt in ("dkvp", "nidx") and r.chance(0.5):
+    if fmt in ("dkvp", "nidx", "csvlite", "tsv") and r.chance(0.5):
         # pieces that end in the last byte of a multi-character IRS without being the IRS (never a separator itself)
         recs = [[(k, r.choice([v, "y", "ay", "b", "ab", "x", "a.b"]) if r.chance(0.4) else v) for k, v in rec] for rec in recs]
     if fmt in ("csv", "csvlite", "tsv") and nf == 1:
@@ -79,8 +79,9 @@ def gen_recs(r, fmt):
 VARIANTS = {
     "csv": [([], []), (["--quote-all"], []), (["--ors", "crlf"], []), (["--ofs", ";"], ["--ifs", ";"]),
             (["--ofs", "tab"], ["--ifs", "tab"]), (["--headerless-csv-output"], ["--implicit-csv-header"]), (["--ofs", "|", "--quote-all"], ["--ifs", "|"])],
-    "csvlite": [([], []), (["--ofs", ";"], ["--ifs", ";"]), (["--ofs", ";;"], ["--ifs", ";;"]), (["--ofs", "\u2192"], ["--ifs", "\u2192"])],
-    "tsv": [([], []), (["--ors", "crlf"], [])],
+    "csvlite": [([], []), (["--headerless-csv-output", "--ors", "xy"], ["--implicit-csv-header", "--irs", "xy"]), (["--headerless-csv-output"], ["--implicit-csv-header"]),
+                (["--ors", "aab"], ["--irs", "aab"]), (["--ofs", ";"], ["--ifs", ";"]), (["--ofs", ";;"], ["--ifs", ";;"]), (["--ofs", "\u2192"], ["--ifs", "\u2192"])],
+    "tsv": [([], []), (["--ors", "crlf"], []), (["--headerless-tsv-output"], ["--implicit-tsv-header"])],
     "json": [([], []), (["--jvstack"], []), (["--no-jvstack"], []), (["--jlistwrap"], [])],
     "jsonl": [([], [])],
     "dkvp": [([], []), (["--ofs", ";", "--ops", ":"], ["--ifs", ";", "--ips", ":"]), (["--ofs", ";;", "--ops", "::"], ["--ifs", ";;", "--ips", "::"]),
@@ -157,7 +158,7 @@ def expect_values(case):
         row = []
         for i, (k, v) in enumerate(rec):
             name = k
-            if fmt == "nidx" or "--implicit-csv-header" in case["ropts"]:
+            if fmt == "nidx" or "--implicit-csv-header" in case["ropts"] or "--implicit-tsv-header" in case["ropts"]:
                 name = str(i + 1)
             if fmt in ("pprint", "xtab", "nidx") and v == "":
                 v = "-"
@@ -244,7 +245,7 @@ def evaluate(case, chk):
                    want=want[i] if i < len(want) else None, got=got[i] if i < len(got) else None, n_want=len(want), n_got=len(got))
             return vd
     # fixed point: mlr --fmt cat on its own output (symmetric option sets only)
-    if "--headerless-csv-output" not in case["wopts"] and fmt not in ("nidx",):
+    if "--headerless-csv-output" not in case["wopts"] and "--headerless-tsv-output" not in case["wopts"] and fmt not in ("nidx",):
         cfg = case["configs"][0]
         fargs = ["mlr"] + (["--records-per-batch", str(cfg["batch"])] if cfg.get("batch") else []) + ["--i" + ff] + case["ropts"] + ["--o" + ff] + case["wopts"] + ["-S", "cat", "t.dat"]
         f = chk.pool.run1(mkspec(fargs, sched=cfg["sched"], chunk=cfg.get("chunk"), knobs=cfg.get("knobs"), rtseed=cfg.get("rtseed", 1), files={"t.dat": text}))
@@ -336,6 +337,8 @@ def independent_parse(case, text):
         lines = s.split(eol)
         if lines and lines[-1] == "":
             lines = lines[:-1]
+        if "--headerless-tsv-output" in case["wopts"]:
+            return [[(str(i + 1), tsv_dec(x)) for i, x in enumerate(line.split("\t"))] for line in lines]
         hdr = [tsv_dec(x) for x in lines[0].split("\t")]
         return [list(zip(hdr, [tsv_dec(x) for x in line.split("\t")])) for line in lines[1:]]
     if fmt == "json":
@@ -360,7 +363,7 @@ def independent_write(case, style, rng):
             wr.writerow([v for _, v in rec])
         return buf.getvalue().encode("utf-8")
     if fmt == "tsv":
-        if not rectangular:
+        if not rectangular or case["ropts"]:
             return None
         eol = ["\n", "\r\n", "\n"][style]
         return (("\t".join(tsv_enc(k) for k, _ in recs[0]) + eol) + "".join("\t".join(tsv_enc(v) for _, v in rec) + eol for rec in recs)).encode("utf-8")
